@@ -81,6 +81,11 @@ def run_level(ctx, binp):
 
 def run(ctx):
     q = ctx.quick
+    sys.path.insert(0, os.path.dirname(os.path.abspath(__file__)))
+    import g_sideband
+    if ctx.replay and g_sideband.owns_replay(ctx.replay):   # replay file written by the side-channel leg
+        g_sideband.leg(ctx)
+        return
     mc = ctx.tlc("Verdict", "MC_Verdict.cfg", timeout=1800)
     ctx.notes["mc_design"] = dict(distinct=mc.distinct, generated=mc.generated)
     g = ctx.tlc("Verdict", "Gen_Verdict_3.cfg", timeout=1800)
@@ -114,6 +119,10 @@ def run(ctx):
         sys.path.insert(0, os.path.dirname(os.path.abspath(__file__)))
         import c11
         c11.batch_leg(ctx, True, False)
+        # ... and over the feedback the reference peers report: that every piece of feedback the server prints reaches
+        # the outcome of its case (whatever the chunking, also on a last line without a newline) is Sideband.tla's binding
+        import g_sideband
+        g_sideband.leg(ctx)
     ctx.cov["evaluations"] += len(scns)
     ctx.cov["traces_validated_against_impl"] += len(scns)
     ctx.cov["distinct_nontrivial"] += sum(1 for s in scns if not s["success"] or s["expected"])
